@@ -1036,6 +1036,46 @@ theorem generators_callOk (x y : TS) (i now : Nat) (c : ChildRef) (hard : Bool) 
    generator_callOk base a p _ (fun B => generateRekeyIkeSaRequest_s B a p now) (generateRekeyIkeSaRequest_so a p now)
      (fun c0 => generateRekeyIkeSaRequest_p2 c0 now)⟩
 
+/-- the same calls on an IKE_SA that is past its hand-over (`P2`): this IKE_SA's own SAs stay consistent against ANY rest of the
+    SAD (`B`), the state stays in the three final states and the successor object is not touched -/
+theorem request_frozen (B : List Key) (c0 : Option XSa) (now : Nat) (m : Msg) (h : HM HRes) (hh : requestHandler now m = some h) :
+    Keeps (fun s => SadI B a p s ∧ P2 c0 s) h := by
+  unfold requestHandler at hh
+  split at hh
+  · cases hh; exact r2 a p B c0 (processIkeSaInitRequest_s B a p m) (processIkeSaInitRequest_p2 c0 m)
+  · split at hh
+    · cases hh; exact r2 a p B c0 (processIkeAuthRequest_s B a p m) (processIkeAuthRequest_p2 c0 m)
+    · split at hh
+      · cases hh; exact processCreateChildSaRequest_r2 a p B c0 now m
+      · split at hh
+        · cases hh; exact r2 a p B c0 (processInformationalRequest_s B a p m) (processInformationalRequest_p2 c0 m)
+        · cases hh
+
+theorem response_frozen (B : List Key) (c0 : Option XSa) (now : Nat) (m : Msg) (h : HM HRes) (hh : responseHandler now m = some h) :
+    Keeps (fun s => SadI B a p s ∧ P2 c0 s) h := by
+  unfold responseHandler at hh
+  split at hh
+  · cases hh; exact r2 a p B c0 (processIkeSaInitResponse_s B a p m) (processIkeSaInitResponse_p2 c0 m)
+  · split at hh
+    · cases hh; exact r2 a p B c0 (processIkeAuthResponse_s B a p m) (processIkeAuthResponse_p2 c0 m)
+    · split at hh
+      · cases hh; exact processCreateChildSaResponse_r2 a p B c0 now m
+      · split at hh
+        · cases hh; exact r2 a p B c0 (processInformationalResponse_s B a p m) (processInformationalResponse_p2 c0 m)
+        · cases hh
+
+theorem generators_frozen (B : List Key) (c0 : Option XSa) (x y : TS) (i now : Nat) (c : ChildRef) (hard : Bool) :
+    Keeps (fun s => SadI B a p s ∧ P2 c0 s) (asRequest (genAcquireH x y i)) ∧
+    Keeps (fun s => SadI B a p s ∧ P2 c0 s) (asRequest (genExpireH c hard)) ∧
+    Keeps (fun s => SadI B a p s ∧ P2 c0 s) (asRequest generateDpdRequest) ∧
+    Keeps (fun s => SadI B a p s ∧ P2 c0 s) (asRequest generateDeleteIkeSaRequest) ∧
+    Keeps (fun s => SadI B a p s ∧ P2 c0 s) (asRequest (generateRekeyIkeSaRequest now)) :=
+  ⟨r2 a p B c0 (asRequest_keeps (genAcquireH_s B a p x y i)) (asRequest_keeps (genAcquireH_p2 c0 x y i)),
+   r2 a p B c0 (asRequest_keeps (genExpireH_s B a p c hard)) (asRequest_keeps (genExpireH_p2 c0 c hard)),
+   r2 a p B c0 (asRequest_keeps (generateDpdRequest_s B a p)) (asRequest_keeps (generateDpdRequest_p2 c0)),
+   r2 a p B c0 (asRequest_keeps (generateDeleteIkeSaRequest_s B a p)) (asRequest_keeps (generateDeleteIkeSaRequest_p2 c0)),
+   r2 a p B c0 (asRequest_keeps (generateRekeyIkeSaRequest_s B a p now)) (asRequest_keeps (generateRekeyIkeSaRequest_p2 c0 now))⟩
+
 end contract
 
 end PyIkev2.Impl
